@@ -1,3 +1,4 @@
+pub mod c02x;
 pub mod c09;
 pub mod c12;
 pub mod c17;
@@ -14,6 +15,7 @@ pub fn datau_json(d: &vcore::rterm::RData) -> serde_json::Value {
 
 pub fn dispatch(prop: &str, tier: Tier, replay: Option<String>) -> i32 {
     match prop {
+        "C02" => c02x::run(tier, replay),
         "C09" => c09::run(tier, replay),
         "C12" => c12::run(tier, replay),
         "C17" => c17::run(tier, replay),
